@@ -234,11 +234,17 @@ def _validate_absolute(facts, rep, b, tr, store_bb, params):
             g = guard_at(facts, b, tr, bb)
             if g is not None and g.kind == "bool":
                 guards[bb] = g
+            elif g is not None and g.kind == "discr" and g.adt and g.adt.endswith("option::Option"):
+                # `for (i, elem) in self.data.iter().enumerate()`: the Option returned by Iterator::next over the chunk vector
+                if any(x.kind == "call" and x[6] == "next" for x in walk(g.pred)) and any(is_data_place_node(y) for y in walk(g.pred)):
+                    guards[bb] = g
 
     def derived(node):
         return bool(pnames & leaves(node))
 
     def classify(g):
+        if g.kind == "discr":
+            return ("scan_it", None)
         p = strip(g.pred)
         if p.kind != "bin":
             return None
@@ -250,10 +256,14 @@ def _validate_absolute(facts, rep, b, tr, store_bb, params):
             return ("cmp", {"Le": True, "Lt": True, "Gt": False, "Ge": False, "Eq": True}.get(op))
         if derived(c) and a_len:
             return ("cmp", {"Ge": True, "Gt": True, "Lt": False, "Le": False, "Eq": True}.get(op))
-        # scan head: Lt(idx, Vec::len(data))
+        # scan head: Lt(idx, Vec::len(data))  (either orientation)
         if op == "Lt" and sc.kind == "call" and sc[6] == "len" and sc[3] and is_data_place_node(sc[3][0]):
             return ("scan", None)
+        if op == "Gt" and sa.kind == "call" and sa[6] == "len" and sa[3] and is_data_place_node(sa[3][0]):
+            return ("scan", None)
         if op in ("Lt", "Le") and derived(a) and not derived(c):
+            return ("rem_lt", True)
+        if op in ("Gt", "Ge") and derived(c) and not derived(a):
             return ("rem_lt", True)
         if op == "Eq" and derived(a) and sc.kind == "const" and sc[1] == 0:
             return ("rem_zero", True)
@@ -279,6 +289,8 @@ def _validate_absolute(facts, rep, b, tr, store_bb, params):
             return 3
         if kind == "scan":
             return 1 if val else 2
+        if kind == "scan_it":
+            return 1 if val == "Some" else (2 if val == "None" else auto)
         if kind == "rem_lt" and val is True and auto == 1:
             return 3
         if kind == "rem_zero" and val == want and auto in (1, 2):
